@@ -35,7 +35,7 @@ Lemma pair_body_spec L s al x y r s' :
   Gd L s → levels_ok s al → x ≠ y →
   is_Some (vars s !! x) → is_Some (vars s !! y) →
   pair_body al (x, y) s = (r, s') →
-  r = Err EOracle ∨
+  r = Err EOracle ∨ r = Err ERuntime ∨
   ∃ al', r = Ok al' ∧ Stp L s s' ∧ levels_ok s' al' ∧ adj s' x y ∧
     dom (vars s') = dom (vars s) ∧
     (∀ a b, a ≠ x → a ≠ y → b ≠ x → b ≠ y → adj s a b → adj s' a b).
@@ -49,7 +49,7 @@ Proof.
   rewrite (bind_ok _ _ _ _ _ (level_of_var_ok s y jy Hy)).
   unfold assert. rewrite bool_decide_eq_true_2 by done. cbn [bind ret].
   destruct (decide ((if decide (jx < jy) then jy - jx else jx - jy) = 1)) as [Hk|Hk].
-  { intros [= <- <-]. right. exists al. split_and!; try done.
+  { intros [= <- <-]. right. right. exists al. split_and!; try done.
     - by apply Stp_refl.
     - exists jx, jy. split_and!; try done. revert Hk. case_decide; lia. }
   (* the general case, with the pair ordered by level *)
@@ -57,16 +57,17 @@ Proof.
             vars s !! va = Some a → vars s !! vb = Some b →
             (va = x ∧ vb = y ∨ va = y ∧ vb = x) →
             bind (shift a (b - 1) al) (fun r0 => ret (snd r0)) s = (r, s') →
-            r = Err EOracle ∨
+            r = Err EOracle ∨ r = Err ERuntime ∨
             ∃ al', r = Ok al' ∧ Stp L s s' ∧ levels_ok s' al' ∧ adj s' x y ∧
               dom (vars s') = dom (vars s) ∧
               (∀ a b, a ≠ x → a ≠ y → b ≠ x → b ≠ y → adj s a b → adj s' a b)).
   { intros a b va vb Hab Hb Hva Hvb Hor.
     destruct (shift a (b - 1) al s) as [r1 s1] eqn:Esh.
     destruct (shift_spec L s a (b - 1) al r1 s1 HG Hal ltac:(lia) ltac:(lia) Esh)
-      as [->|(sz&al1&->&HS1&Hal1&Hp1&_)].
+      as [->|[->|(sz&al1&->&HS1&Hal1&Hp1&_)]].
     { rewrite (bind_err _ _ _ _ _ Esh). intros [= <- <-]. by left. }
-    rewrite (bind_ok _ _ _ _ _ Esh). cbn [snd]. intros [= <- <-]. right.
+    { rewrite (bind_err _ _ _ _ _ Esh). intros [= <- <-]. by right; left. }
+    rewrite (bind_ok _ _ _ _ _ Esh). cbn [snd]. intros [= <- <-]. right. right.
     exists al1. pose proof HS1 as (_&Hn1&_). split_and!; try done.
     - pose proof (Hp1 va a Hva) as Ea. pose proof (Hp1 vb b Hvb) as Eb.
       assert (mv a (b - 1) a = b - 1) as Ea' by (unfold mv; repeat case_decide; lia).
@@ -91,7 +92,7 @@ Theorem reorder_to_pairs_correct pairs s L r s' :
   NoDup (pairs.*1 ++ pairs.*2) →
   (∀ v, v ∈ pairs.*1 ++ pairs.*2 → is_Some (vars s !! v)) →
   reorder_to_pairs pairs s = (r, s') →
-  r = Err EOracle ∨
+  r = Err EOracle ∨ r = Err ERuntime ∨
   (r = Ok tt ∧ Stp L s s' ∧ dom (vars s') = dom (vars s) ∧ rr s' = rr s ∧
    ∀ x y, (x, y) ∈ pairs → adj s' x y).
 Proof.
@@ -107,11 +108,11 @@ Proof.
             (∀ v, v ∈ (done ++ todo).*1 ++ (done ++ todo).*2 → is_Some (vars s !! v)) →
             (∀ x y, (x, y) ∈ done → adj s1 x y) →
             foldM pair_body al1 todo s1 = (r1, s2) →
-            r1 = Err EOracle ∨
+            r1 = Err EOracle ∨ r1 = Err ERuntime ∨
             ∃ al2, r1 = Ok al2 ∧ Stp L s s2 ∧ dom (vars s2) = dom (vars s) ∧
                    ∀ x y, (x, y) ∈ done ++ todo → adj s2 x y).
   { induction todo as [|[x y] todo IH]; intros dn s1 al1 r1 s2 Hnd1 HS1 Hal1 Hd1 Hdc Hadj.
-    - cbn [foldM]. intros [= <- <-]. right. exists al1. rewrite app_nil_r. done.
+    - cbn [foldM]. intros [= <- <-]. right. right. exists al1. rewrite app_nil_r. done.
     - cbn [foldM]. destruct (pair_body al1 (x, y) s1) as [rb sb] eqn:Eb.
       assert (Hin : ∀ v, v ∈ (dn ++ (x, y) :: todo).*1 ++ (dn ++ (x, y) :: todo).*2 →
                 is_Some (vars s1 !! v)).
@@ -132,12 +133,13 @@ Proof.
           + apply (N2 x); rewrite !elem_of_app, !elem_of_cons; tauto.
           + apply (N3 y Hb). left. }
       destruct Hxy as [Hxy Hdn].
-      destruct (pair_body_spec L s1 al1 x y rb sb (proj1 HS1) Hal1 Hxy) as [->|(alb&->&HSb&Halb&Hab&Hdb&Hk)];
+      destruct (pair_body_spec L s1 al1 x y rb sb (proj1 HS1) Hal1 Hxy) as [->|[->|(alb&->&HSb&Halb&Hab&Hdb&Hk)]];
         [apply Hin; rewrite !elem_of_app, !elem_of_cons; tauto
-        |apply Hin; rewrite !elem_of_app, !elem_of_cons; tauto|exact Eb| |].
+        |apply Hin; rewrite !elem_of_app, !elem_of_cons; tauto|exact Eb| | |].
       { rewrite (bind_err _ _ _ _ _ Eb). intros [= <- <-]. by left. }
+      { rewrite (bind_err _ _ _ _ _ Eb). intros [= <- <-]. by right; left. }
       rewrite (bind_ok _ _ _ _ _ Eb). intros Hrun.
-      destruct (IH (dn ++ [(x, y)]) sb alb r1 s2) as [->|(al2&->&HS2&Hd2&Hadj2)]; try done.
+      destruct (IH (dn ++ [(x, y)]) sb alb r1 s2) as [->|[->|(al2&->&HS2&Hd2&Hadj2)]]; try done.
       + by rewrite <- app_assoc.
       + by apply (Stp_trans L s s1 sb).
       + congruence.
@@ -146,12 +148,14 @@ Proof.
         * destruct (Hdn a b Hab') as (?&?&?&?). apply Hk; try done. by apply Hadj.
         * apply elem_of_list_singleton in Hab'. by injection Hab' as -> ->.
       + by left.
-      + right. exists al2. split_and!; try done. intros a b Hab'. apply Hadj2.
+      + by right; left.
+      + right. right. exists al2. split_and!; try done. intros a b Hab'. apply Hadj2.
         by rewrite <- app_assoc. }
   destruct (foldM pair_body al pairs s) as [r1 s1] eqn:Efold.
-  destruct (Hloop pairs [] s al r1 s1 Hnd (Stp_refl L s HG) Hal eq_refl Hdecl) as [->|(al2&->&HS2&Hd2&Hadj2)];
-    [|exact Efold| |].
+  destruct (Hloop pairs [] s al r1 s1 Hnd (Stp_refl L s HG) Hal eq_refl Hdecl) as [->|[->|(al2&->&HS2&Hd2&Hadj2)]];
+    [|exact Efold| | |].
   - intros x y H. by apply elem_of_nil in H.
   - rewrite (bind_err _ _ _ _ _ Efold). intros [= <- <-]. by left.
-  - rewrite (bind_ok _ _ _ _ _ Efold). intros [= <- <-]. right. split_and!; try done.
+  - rewrite (bind_err _ _ _ _ _ Efold). intros [= <- <-]. by right; left.
+  - rewrite (bind_ok _ _ _ _ _ Efold). intros [= <- <-]. right. right. split_and!; try done.
 Qed.
